@@ -17,10 +17,11 @@ try:
     res = []
     for listed, want_rc in (([k1], 1), ([k1, k2], 0)):
         kf = os.path.join(base, 'known.json')
-        json.dump({'open': [{'property': 'C20', 'key': k, 'what': 'selftest'} for k in listed], 'fixed': []}, open(kf, 'w'))
+        committed = json.load(open(os.path.join(V, 'known_findings.json'))).get('open', [])   # the genuine open entries stay listed
+        json.dump({'open': committed + [{'property': 'C20', 'key': k, 'what': 'selftest'} for k in listed], 'fixed': []}, open(kf, 'w'))
         r = subprocess.run([os.path.join(V, 'bin', 'check'), 'C20', '--repo', dst, '--no-evidence'], capture_output=True, text=True,
                            env=dict(os.environ, RSV_KNOWN_FINDINGS=kf))
-        known = [l for l in r.stdout.splitlines() if l.startswith('KNOWN-FINDING:')]
+        known = [l for l in r.stdout.splitlines() if l.startswith('KNOWN-FINDING:') and any(k in l for k in (k1, k2))]
         viol = [l for l in r.stdout.splitlines() if l.startswith('VIOLATION')]
         ok = r.returncode == want_rc and len(known) == len(listed) and (len(viol) == 2 - len(listed))
         res.append(ok)
